@@ -18,3 +18,19 @@ Definition ex_dna : sdna :=
 Example ex_dna_valid : valid ex_spec ex_dna = true /\
   next ex_spec ex_dna = Some (SSpace [PChoices [(0, SSpace []); (2, SSpace [])]; PChoices [(0, SSpace [])]]).
 Proof. vm_compute. split; reflexivity. Qed.
+
+(* the PRNG contract of C11_random_member is satisfiable: a generator that always draws the smallest values *)
+Definition triv_sample (n k : nat) (r : unit) : list nat * unit := (seq 0 k, r).
+Definition triv_randint (n : nat) (r : unit) : nat * unit := (O, r).
+Definition triv_uniform (lo hi : flt) (r : unit) : flt * unit := (lo, r).
+Example triv_rng_ok :
+  (forall n k r, k <= n -> length (fst (triv_sample n k r)) = k /\ NoDup (fst (triv_sample n k r)) /\
+                           Forall (fun c => c < n) (fst (triv_sample n k r))) /\
+  (forall n r, 1 <= n -> fst (triv_randint n r) < n) /\
+  (forall lo hi r, (lo <= hi)%Z -> (lo <= fst (triv_uniform lo hi r) <= hi)%Z).
+Proof.
+  repeat split; simpl; try lia.
+  - apply seq_length.
+  - apply seq_NoDup.
+  - apply Forall_forall. intros c Hc. apply in_seq in Hc. lia.
+Qed.
